@@ -112,6 +112,17 @@ func newStringError(pos ast.Pos, err string) error {
 	return &Error{Message: err, Pos: pos.Position()}
 }
 
+// heldValue returns rv itself, or a copy of it when rv is an addressable element or field:
+// a value that is kept for later must not change when the place it was read from is assigned.
+func heldValue(rv reflect.Value) reflect.Value {
+	if !rv.IsValid() || !rv.CanAddr() {
+		return rv
+	}
+	held := reflect.New(rv.Type()).Elem()
+	held.Set(rv)
+	return held
+}
+
 // recoverFunc generic recover function
 func recoverFunc(runInfo *runInfoStruct) {
 	recoverInterface := recover()
